@@ -109,6 +109,7 @@ def lworldWith (lc : LifeCycle) (methods : LV → List LV → List (String × LV
   throw cls := throw cls
   rethrow := throw "reraise"
   catchAll body handler := tryCatch body (fun _ => handler)
+  catchCls cls body handler := tryCatch body (fun e => if e == cls then handler else throw e)
 
 /-- everything except method calls into other translated functions -/
 def lworld0 (lc : LifeCycle) : World M LV := lworldWith lc fun _ _ _ => Option.none
